@@ -92,7 +92,8 @@ func Families(tier string) []Family {
 	// scalar-s: string / optional string / flags (C01, C04, C06)
 	{
 		f := Family{Name: "scalar-s"}
-		toks := Ts("--s", "--s=x", "--s=-x", "--s=a=b", "--s=cmd", "--str", "--so", "--so=x", "--b", "--nb", "--v", "x", "-x", "cmd", "--")
+		toks := Ts("--s", "--s=x", "--s=-x", "--s=a=b", "--s=cmd", "--str", "--so", "--so=x", "--b", "--nb", "--v", "x", "-x", "cmd", "--",
+			"-s=:x", "--s=:x", "-s==x") // attached values that start with a separator character
 		for mode := 0; mode < 3; mode++ {
 			c := Cfg{Mode: mode}
 			c.Nodes = []NodeCfg{rootNode(0, false), cmdNode("cmd", 1, 0, false, true)}
@@ -134,7 +135,7 @@ func Families(tier string) []Family {
 			toks       []Tok
 		}
 		for _, m := range []mk{
-			{"multi-ss", "sslice", Ts("--l", "--l=v", "v", "w", "--b", "--", "-", "cmd", "-x")},
+			{"multi-ss", "sslice", Ts("--l", "--l=v", "v", "w", "--b", "--", "-", "cmd", "-x", "")},
 			{"multi-is", "islice", Ts("--l", "--l=1", "--l=1..3", "1", "2", "1.5", "1..3", "3..1", "x", "--b", "--")},
 			{"multi-fs", "fslice", Ts("--l", "--l=0.1", "--l=x", "1.5", "2", "1e-320", "x", "--b", "--")},
 			{"multi-sm", "smap", Ts("--l", "--l=k=v", "k=v", "k=w=z", "K=v", "j=1", "x", "--b", "--")},
@@ -205,7 +206,7 @@ func Families(tier string) []Family {
 	// term: `--` at every position after every context (C04, C09)
 	{
 		f := Family{Name: "term"}
-		toks := Ts("--", "a", "--b", "--s", "--s=v", "--l", "--l=v", "--so", "cmd", "--c", "--u")
+		toks := Ts("--", "a", "--b", "--s", "--s=v", "--l", "--l=v", "--so", "cmd", "--c", "--u", "")
 		for _, um := range []int{0, 2} {
 			for _, ro := range []bool{false, true} {
 				for mode := 0; mode < 3; mode++ {
@@ -309,7 +310,7 @@ func Families(tier string) []Family {
 	// before or after the commands are declared (C07)
 	{
 		f := Family{Name: "modes"}
-		toks := Ts("-xy", "-xyz", "-xys", "-xys=v", "-s=v", "-sv", "-é", "-üv", "-xq", "--xy", "--s=v", "v", "-x", "-s", "-sx", "-s\xffv", "cmd")
+		toks := Ts("-xy", "-xyz", "-xys", "-xys=v", "-s=v", "-sv", "-é", "-üv", "-xq", "--xy", "--s=v", "v", "-x", "-s", "-sx", "-s\xffv", "cmd", "-s=:v", "-s==v")
 		for mode := 0; mode < 3; mode++ {
 			for _, um := range []int{0, 2} {
 				for _, late := range []bool{false, true} {
@@ -473,7 +474,7 @@ func Families(tier string) []Family {
 					if defb && k.kind != "bool" {
 						continue
 					}
-					c := Cfg{Mode: 0}
+					c := Cfg{Mode: 0, EnvLate: ei%2 == 1} // odd ones: the GetEnv modifier is created before the variable exists
 					c.Nodes = []NodeCfg{rootNode(0, false)}
 					o := multi(k.kind, "o", 1, 1, 2, "al")
 					o.DefB = defb
@@ -540,6 +541,13 @@ func Families(tier string) []Family {
 		f := Family{Name: "complete-eq"}
 		toks := Ts("--label=", "--label=r", "--label=z", "--label=region=", "--label=p", "--la=", "--la=k", "--l=", "--l=x", "--lab", "--l", "x", "")
 		for mode := 0; mode < 2; mode++ {
+			// the lone dash as a declared option with suggested values: only the word `-` stands for it
+			cd := Cfg{Mode: mode}
+			cd.Nodes = []NodeCfg{rootNode(0, false)}
+			dash := opt("string", "-", 1)
+			dash.Sugg = Ts("stdin", "tty")
+			cd.Opts = []OptCfg{dash, opt("bool", "flag", 1)}
+			f.Defs = append(f.Defs, Def{Cfg: cd, Tokens: Ts("-", "--", "---", "---=", "---=s", "--f", "-=s", "x", ""), L: 2, Comp: true})
 			c := Cfg{Mode: mode}
 			c.Nodes = []NodeCfg{rootNode(0, false)}
 			label := multi("smap", "label", 1, 1, 2)
